@@ -291,7 +291,15 @@ def c14Run (c : Cfg) (tr : Trace) (anns : List CbEv) (world : List Dial) : List 
       else if b = reported then []
       else [if b then "return-value:true-without-error-report" else "return-value:false-despite-error-report"]
     let _ := appClosed
-    (if c.has .onClose then onceLast c.plan anns else []) ++ vArgs ++ vRet ++
+    -- "a run that simply ended through the application's own close()": once another thread has called close(), nothing
+    -- that happens on the way out is an error of the run (the internal-error case has its own clause above)
+    let vOwn := match tr.findIdx? (fun te => te.2 = .closeCall) with
+      | some i =>
+        if (tr.drop (i + 1)).any (fun te => isErrorReport te.2 &&
+              (match te.2 with | .cb .onError [.exn .attrError] => false | _ => true)) && !onErrFails
+        then ["return-value:error-reported-after-own-close"] else []
+      | none => []
+    (if c.has .onClose then onceLast c.plan anns else []) ++ vArgs ++ vRet ++ vOwn ++
       (if live tr = 0 then [] else ["clean:transport-left"]) ++
       (if livePings tr = 0 then [] else ["clean:ping-thread-left"])
   | _ => []
